@@ -1173,6 +1173,10 @@ fn main() {
             println!("fault_hit={}", fs.failures() > 0);
             let g = db.get(ReadOptions::default(), b"k");
             println!("get_after={}", if g.is_ok() { "found" } else { "missing" });
+            if a.len() > 1 && a[1] == "wal_once" {
+                // a transient fault: the file system works again, the database must still refuse (the log has a hole)
+                fs.disarm();
+            }
             let r2 = db.put(WriteOptions::default(), b"k2".to_vec(), b"v2".to_vec());
             println!("second_put_result={}", if r2.is_ok() { "Ok" } else { "Err" });
             fs.disarm();
@@ -2310,6 +2314,146 @@ fn main() {
             println!("imm_flushed={}", !db.has_immutable_memtable_for_verif());
             pass("after the held flush:", &db);
             println!("reads={}", reads);
+            println!("mismatches={}", bad);
+            println!("first_mismatch={}", first);
+        }
+        // key_codec : internal keys with user keys of 0..4 bytes from {00, 01, 7f, 80, ff}, extreme sequence numbers, both operations:
+        // layout of the encoding, round trip, rejection of short buffers / foreign operation bytes
+        "key_codec" => {
+            let bytes = [0x00u8, 0x01, 0x7f, 0x80, 0xff];
+            let seqs = [0u64, 1, 255, 256, 0x0102_0304_0506_0708, (1 << 56) - 1, 1 << 56, u64::MAX - 1, u64::MAX];
+            let mut keys: Vec<Vec<u8>> = vec![vec![]];
+            let mut last: Vec<Vec<u8>> = vec![vec![]];
+            for _ in 0..4 {
+                let mut next = vec![];
+                for k in &last {
+                    for b in bytes {
+                        let mut k2 = k.clone();
+                        k2.push(b);
+                        next.push(k2);
+                    }
+                }
+                keys.extend(next.iter().cloned());
+                last = next;
+            }
+            let (mut cases, mut bad, mut first) = (0u64, 0u64, String::new());
+            for k in &keys {
+                for s in seqs {
+                    for put in [false, true] {
+                        cases += 1;
+                        let enc = v::ikey_bytes((k, s, put));
+                        let mut want = k.clone();
+                        want.extend_from_slice(&s.to_le_bytes());
+                        want.push(put as u8);
+                        let rt = v::ikey_roundtrip((k, s, put));
+                        if enc != want || rt != Some((k.clone(), s, put)) {
+                            bad += 1;
+                            if first.is_empty() {
+                                first = format!("key {:02x?} seq {} put {}: bytes {:02x?}, decoded {:?}", k, s, put, enc, rt);
+                            }
+                        }
+                    }
+                }
+            }
+            for n in 0..9usize {
+                cases += 1;
+                if v::parse_internal_key(vec![1u8; n]) {
+                    bad += 1;
+                    if first.is_empty() {
+                        first = format!("a buffer of {} bytes is accepted as an internal key", n);
+                    }
+                }
+            }
+            for opb in 0..=255u8 {
+                cases += 1;
+                let mut buf = vec![b'k'; 3];
+                buf.extend_from_slice(&7u64.to_le_bytes());
+                buf.push(opb);
+                if v::parse_internal_key(buf) != (opb <= 1) {
+                    bad += 1;
+                    if first.is_empty() {
+                        first = format!("operation byte {} accepted / rejected wrongly", opb);
+                    }
+                }
+            }
+            println!("cases={}", cases);
+            println!("mismatches={}", bad);
+            println!("first_mismatch={}", first);
+        }
+        // block_codec <user key lengths> <value lengths> <restart interval> : blocks of this shape (and the interval plus 1, 2, 3, 16) built from a
+        // sweep of byte values, fresh and reset builders; what the reader's iterator yields must be the entries added
+        "block_codec" => {
+            let klens: Vec<usize> = a[1].split(',').map(|x| num(x) as usize).collect();
+            let vlens: Vec<usize> = a[2].split(',').map(|x| num(x) as usize).collect();
+            let mut intervals = vec![num(a[3]) as usize, 1, 2, 3, 16];
+            intervals.dedup();
+            let bytes = [0x00u8, 0x01, 0xff];
+            let seqs = [0u64, 1, 256, 257, 0x0100_0000_0000_0001, (1 << 56) - 1];
+            // candidate keys per entry
+            let mut cands: Vec<Vec<(Vec<u8>, u64, bool)>> = vec![];
+            for (i, kl) in klens.iter().enumerate() {
+                let mut ks: Vec<Vec<u8>> = vec![vec![]];
+                for _ in 0..*kl {
+                    let mut next = vec![];
+                    for k in &ks {
+                        for b in bytes {
+                            let mut k2 = k.clone();
+                            k2.push(b);
+                            next.push(k2);
+                        }
+                    }
+                    ks = next;
+                }
+                let mut c = vec![];
+                for k in ks {
+                    for s in seqs {
+                        c.push((k.clone(), s, (s as usize + i) % 2 == 0));
+                    }
+                }
+                cands.push(c);
+            }
+            let (mut cases, mut bad, mut first) = (0u64, 0u64, String::new());
+            let mut idx = vec![0usize; klens.len()];
+            'outer: loop {
+                let ents: Vec<(Vec<u8>, u64, bool, Vec<u8>)> = idx.iter().enumerate().map(|(i, j)| {
+                    let c = &cands[i][*j];
+                    (c.0.clone(), c.1, c.2, (0..vlens[i]).map(|x| (c.1 as u8).wrapping_mul(31).wrapping_add(x as u8).wrapping_add(c.0.len() as u8 * 0x55)).collect())
+                }).collect();
+                let ascending = ents.windows(2).all(|w| v::ikey_cmp((&w[0].0, w[0].1, w[0].2), (&w[1].0, w[1].1, w[1].2)) == std::cmp::Ordering::Less);
+                if ascending {
+                    for iv in &intervals {
+                        for reuse in [false, true] {
+                            cases += 1;
+                            let e2 = ents.clone();
+                            let (iv2, r2) = (*iv, reuse);
+                            let got = std::panic::catch_unwind(move || v::block_roundtrip(iv2, &e2, r2));
+                            let ok = matches!(&got, Ok(Some(g)) if *g == ents);
+                            if !ok {
+                                bad += 1;
+                                if first.is_empty() {
+                                    first = format!("interval {} reuse {}: added {:02x?}, read back {:02x?}", iv, reuse, ents, got.ok());
+                                }
+                            }
+                        }
+                    }
+                }
+                let mut p = 0;
+                loop {
+                    if p == idx.len() {
+                        break 'outer;
+                    }
+                    idx[p] += 1;
+                    if idx[p] < cands[p].len() {
+                        break;
+                    }
+                    idx[p] = 0;
+                    p += 1;
+                }
+                if cases > 60000 {
+                    break;
+                }
+            }
+            println!("cases={}", cases);
             println!("mismatches={}", bad);
             println!("first_mismatch={}", first);
         }
